@@ -432,6 +432,7 @@ def run(chk: Check):
     # ---------------- 3. post-selection tables and the conditioned sampler
     items, ids = [], []
     nan_cases = 0
+    impossible = 0
     for c, r in zip(dist, impl["dist"]):
         if isinstance(r["sample"], str) or any(w is None or any(x != x for x in w) for w in r["weights"]):
             nan_cases += 1
@@ -445,6 +446,29 @@ def run(chk: Check):
                                                     clist([abs2(U[p][m]) for p in c["ps_modes"]], cq)))
         bshape = nlist([b + 1 for b in c["ps_bound"]])
         k = len(c["ps_modes"])
+        # exact probability of the post-selection (harness side): when it is zero the sampler
+        # never reaches the conditioned draw (rng.random() > p always holds) and the
+        # implementation's weights there are 0/0 rounding noise
+        gf = {(0,) * k: F(1)}
+        for m in fq:
+            q = [abs2(U[p_][m]) for p_ in c["ps_modes"]]
+            nxt = {}
+            for ix, v in gf.items():
+                nxt[ix] = nxt.get(ix, 0) + (1 - sum(q)) * v
+                for j in range(k):
+                    jx = ix[:j] + (ix[j] + 1,) + ix[j + 1:]
+                    nxt[jx] = nxt.get(jx, 0) + q[j] * v
+            gf = nxt
+        possible = gf.get(tuple(c["ps_photons"]), 0) > 0
+        if not possible:
+            impossible += 1
+            items.append(
+                "(close %s (dist_postselection_probability (N:=QN) false %s %s) && "
+                "closell %s (map (tabulate (N:=QN) %s) (dist_table (N:=QN) %s %s)))" % (
+                    qf(r["scalar"]), particles, nlist(c["ps_photons"]),
+                    clist(r["table"], lambda t: clist(t, qf)), bshape, cn(k), particles))
+            ids.append(c["id"])
+            continue
         out_non = [r["sample"][m] for m in non_ps]
         out_ps = [r["sample"][m] for m in c["ps_modes"]]
         items.append(
@@ -527,7 +551,7 @@ def run(chk: Check):
                samples=[{"shape": trunc[0]["shape"], "ls": [str(x) for x in trunc[0]["lsq"]]}])
     chk.stream("distinguishable-photon post-selection tables and conditioned sampler vs model", len(dist) - nan_cases,
                len({json.dumps([c["dist"], c["ps_modes"], c["ps_photons"]]) for c in dist}),
-               note="%d cases with an impossible post-selection (0/0 weights) not compared" % nan_cases)
+               note="%d cases with NaN weights not compared; %d cases whose post-selection has exact probability 0: tables compared, conditioned draw (unreachable) not" % (nan_cases, impossible))
     chk.stream("binning of samples into frequencies vs model", len(counts), len({json.dumps(c["samples"]) for c in counts if len(c["samples"]) > 2}))
     chk.stream("general-dyne / heterodyne / homodyne arguments of multivariate_normal vs model", len(dyne),
                len({json.dumps([c["modes"], c["kind"], c["d"]]) for c in dyne}),
